@@ -56,14 +56,14 @@ pub fn roundtrip(ctx: &Ctx, case: u64, r: &mut Rng, cfg: &GenCfg, model: &ModelT
     let repo = match cfg.create(uni.backend(0), &key, r) {
         Ok(r) => r,
         Err(e) => {
-            out.problems.push(("init-refused".into(), format!("init refused generated config: {e}")));
+            out.problems.push(("init-refused".into(), format!("init refused generated config: {}", repo::errstr(&e))));
             return out;
         }
     };
     let repo = match repo.to_indexed_ids() {
         Ok(r) => r,
         Err(e) => {
-            out.problems.push(("index".into(), format!("to_indexed_ids: {e}")));
+            out.problems.push(("index".into(), format!("to_indexed_ids: {}", repo::errstr(&e))));
             return out;
         }
     };
@@ -79,7 +79,7 @@ pub fn roundtrip(ctx: &Ctx, case: u64, r: &mut Rng, cfg: &GenCfg, model: &ModelT
     let snap = match snap {
         Ok(s) => s,
         Err(e) => {
-            out.problems.push(("backup-error".into(), format!("backup returned an error: {e}")));
+            out.problems.push(("backup-error".into(), format!("backup returned an error: {}", repo::errstr(&e))));
             if let Some(d) = dir {
                 let _ = std::fs::remove_dir_all(d);
             }
@@ -93,7 +93,7 @@ pub fn roundtrip(ctx: &Ctx, case: u64, r: &mut Rng, cfg: &GenCfg, model: &ModelT
     let repo = match repo::open_uni(&uni, &key).and_then(rustic_core::Repository::to_indexed) {
         Ok(r) => r,
         Err(e) => {
-            out.problems.push(("reopen".into(), format!("re-open / index after backup failed: {e}")));
+            out.problems.push(("reopen".into(), format!("re-open / index after backup failed: {}", repo::errstr(&e))));
             return out;
         }
     };
@@ -149,7 +149,7 @@ pub fn roundtrip(ctx: &Ctx, case: u64, r: &mut Rng, cfg: &GenCfg, model: &ModelT
     tick("restore done");
     // check
     match check_full(&repo) {
-        Err(e) => out.problems.push(("check-error".into(), format!("check returned Err: {e}"))),
+        Err(e) => out.problems.push(("check-error".into(), format!("check returned Err: {}", repo::errstr(&e)))),
         Ok(errs) => {
             for e in errs.iter().take(3) {
                 out.problems.push(("check-reports".into(), format!("check reports an error on a fresh backup: {e}")));
